@@ -62,6 +62,11 @@ impl<T: PartialEq + Eq + Hash> AvailableValueMap<T> {
     pub fn extend(&mut self, other: Self) {
         self.map.extend(other.map);
     }
+
+    /// Keep only the entries for which the predicate holds.
+    pub fn retain(&mut self, mut keep: impl FnMut(&T, &AvailableValue) -> bool) {
+        self.map.retain(|key, value| keep(key, value));
+    }
 }
 
 #[cfg(rva_verif)]
